@@ -635,9 +635,10 @@ def mixed_dtype_scenarios(rng, count, kind="sup", nq=4, nu=0):
                                     mode="metric", classes=rng.choice([2, 3]), copies=False)
         Z = np.array(scn["Z"])
         grid = list(scn["I_train"]) if i % 2 == 0 else (list(scn["U"]) + list(scn["Q"]))
-        Z[grid] = np.round(Z[grid] * 3)                       # these rows are integral ...
+        f = (3.0, 1.5)[(i // 2) % 2]                           # (a coarse grid: the fractional part of the other rows is a large move)
+        Z[grid] = np.round(Z[grid] * f)                       # these rows are integral ...
         other = [r for r in range(len(Z)) if r not in grid]
-        Z[other] = Z[other] * 3 + 0.37                         # ... the others are not
+        Z[other] = Z[other] * f + 0.37                         # ... the others are not
         scn["Z"] = Z.tolist()
         scn["present"] = "f64"
         scn["present_roles"] = {"train": "int", "unl": "f64", "query": "f64"} if i % 2 == 0 else {"train": "f64", "unl": "int", "query": "int"}
